@@ -44,6 +44,16 @@ the character `r ↦ E(-r)` -/
 def zoomAxisInv (n m nfftInv : Nat) (x0 δ u0 Δ : K) (F : Nat → C) (j : Nat) : C :=
   zoomAxis m n nfftInv (fun r => E (-r)) u0 Δ x0 δ F j
 
+/-- the chirp parameters `(ω, α)` one axis of `forward` hands to the Bluestein pipeline:
+`w = E ω = exp(-i·Δ·δ)`, `a = E α = exp(i·u0·δ)` — they depend on the axis' own spacings **and on the
+zero `u0` of that axis of the output grid** (`zoomAxis_chirp` in `Lemmas/ZoomN.lean`: this is what
+`zoomAxis` uses, by `rfl`) -/
+def zoomChirp (δ u0 Δ : K) : K × K := (-(Δ * δ), u0 * δ)
+
+/-- the same for `backward` (`inv_czts`), to be read with the character `r ↦ E(-r)`:
+`inv_w = exp(+i·δ·Δ)`, `inv_a = exp(-i·x0·Δ)` — depends on the zero `x0` of the input grid's axis -/
+def zoomChirpInv (x0 δ Δ : K) : K × K := zoomChirp Δ x0 δ
+
 /-- the axis loop of `forward` (after the multiplication with the weights) -/
 def zoomLoopN : List (ZAx K) → (List Nat → C) → List Nat → C
   | [], f, _ => f []
